@@ -1,11 +1,27 @@
 /-
 C20 — Beat-grid normalisation brackets the track and keeps its tempo.
-Theorems over ℚ about the Model `Pure.Beatgrid.normalize` (the same generic
-code the driver runs over hardware floats, bit-exactly tied to the C++).
-All grids, no bound on length.  The proofs are in Proofs/Beatgrid.lean
-(`qNum`, `QSorted`, `qtempo` there are definitionally `ratNum`, `Sorted`, `tempo`).
+
+The Model `Pure.Beatgrid.normalize` is generic over the arithmetic `Num α`; the
+driver runs it over hardware `Float` (`floatNum`, tied bit for bit to the C++)
+and over exact rationals (`ratNum`, core `Rat`, the Float-vs-ℚ stream).
+
+Three groups of theorems:
+  A. for EVERY arithmetic (so also for `Float`): totality on `int` indices
+     (`C20_defined`: a grid or `invalid_argument`, never undefined behaviour),
+     first index −4, interior positions untouched, the two unconditional
+     rejections, and — under the four order laws `OrdLaws` that IEEE comparisons
+     satisfy even with NaN — `trim = window`;
+  B. over exact rationals, about the INPUT grid `g` (through the Spec `window`,
+     not through the model's own `trim`): which grids are accepted / rejected,
+     bracket, tempo, interior markers, sortedness, idempotence;
+  C. registered witnesses (`_counterexample`) showing which hypotheses are needed.
+
+The proofs are in Proofs/BeatgridGen.lean (A), Proofs/BeatgridWindow.lean
+(`trim = window`) and Proofs/Beatgrid.lean (B).
 -/
 import EngineModel.Pure.Beatgrid
+import EngineModel.Pure.BeatgridRat
+import EngineModel.Pure.BeatgridFloat
 import Proofs.Beatgrid
 import Mathlib.Data.Rat.Floor
 import Mathlib.Tactic.Linarith
@@ -13,17 +29,84 @@ import Mathlib.Tactic.Linarith
 namespace EngineModel.Properties.C20
 open EngineModel EngineModel.Pure.Beatgrid
 
-/-- Exact rational arithmetic; `ceil32` is the integer ceiling when it fits `int32_t`. -/
-def ratNum : Num ℚ where
-  ofInt i := (i : ℚ)
-  add a b := a + b
-  sub a b := a - b
-  mul a b := a * b
-  div a b := a / b
-  lt a b := decide (a < b)
-  le a b := decide (a ≤ b)
-  ceil32 x := let c := Int.ceil x
-    if -2147483648 ≤ c ∧ c ≤ 2147483647 then some c else none
+/-! ## A. every arithmetic (in particular the `Float` instance the driver runs) -/
+
+section generic
+variable {α : Type} (num : Num α)
+
+/-- **Totality.**  On grids whose beat indices are `int` values (the type of the C++ field) and
+for any sample count, normalisation returns a grid or throws `invalid_argument`: no `int`
+overflow, no out-of-range `double → int` conversion.  (Before the `fix:` to `normalize_beatgrid`
+this was false: see `C20_defined_counterexample` for what is left outside.) -/
+theorem C20_defined (hc : num.Ceil32Ok) (g : List (Marker α)) (n : Int) (hi : Idx32 g) :
+    ∀ u, normalize num g n ≠ .ub u :=
+  normalize_defined num hc g n hi
+
+/-- The outcome alphabet, positively: a grid or `invalid_argument`, nothing else. -/
+theorem C20_ok_or_invalid (hc : num.Ceil32Ok) (g : List (Marker α)) (n : Int) (hi : Idx32 g) :
+    (∃ out, normalize num g n = .ok out) ∨ normalize num g n = .throw .invalid_argument :=
+  gen_ok_or_invalid hc hi
+
+/-- The trimmed grid is a contiguous part of the input. -/
+theorem C20_trim_infix (g : List (Marker α)) (n : Int) : trim num g n <:+: g :=
+  trim_infix num g n
+
+/-- The first marker of a result has beat index −4. -/
+theorem C20_gen_first_index (hc : num.Ceil32Ok) (g out : List (Marker α)) (n : Int) (hi : Idx32 g)
+    (h : normalize num g n = .ok out) (hne : g ≠ []) :
+    ∃ m, out.head? = some m ∧ m.index = -4 :=
+  gen_first_index hc hi h hne
+
+/-- A result has as many markers as the trimmed grid and every position but the first and the
+last holds the very marker (index and offset) of the trimmed grid. -/
+theorem C20_gen_interior_unchanged (hc : num.Ceil32Ok) (g out : List (Marker α)) (n : Int)
+    (hi : Idx32 g) (h : normalize num g n = .ok out) (hne : g ≠ []) :
+    out.length = (trim num g n).length ∧
+    ∀ i, 0 < i → i + 1 < out.length → out[i]? = (trim num g n)[i]? :=
+  gen_interior_unchanged hc hi h hne
+
+/-- A result again has `int` beat indices. -/
+theorem C20_gen_out_idx32 (hc : num.Ceil32Ok) (g out : List (Marker α)) (n : Int) (hi : Idx32 g)
+    (h : normalize num g n = .ok out) (hne : g ≠ []) : Idx32 out :=
+  gen_out_idx32 hc hi h hne
+
+/-- Fewer than two usable markers, or beat −4 not before the second usable marker: rejected. -/
+theorem C20_gen_reject_of (g : List (Marker α)) (n : Int) (hne : g ≠ [])
+    (hc : (trim num g n).length < 2 ∨ ∃ m1, (trim num g n)[1]? = some m1 ∧ m1.index ≤ -4) :
+    normalize num g n = .throw .invalid_argument :=
+  gen_reject_of hne hc
+
+/-- **Trimming keeps exactly the Spec's window** — the last marker at or before sample 0 (or the
+first marker), every marker strictly inside the track, the first marker at or beyond the end (or
+the last marker) — for any comparisons satisfying `OrdLaws`. -/
+theorem C20_trim_spec (L : OrdLaws num) (g : List (Marker α)) (n : Int) (hs : SortedBy num g)
+    (hn : num.lt (num.ofInt 0) (num.ofInt n) = true) :
+    trim num g n = window num g n :=
+  trim_eq_window L hs hn
+
+end generic
+
+/-- The hardware-float instance keeps its `ceil32` contract, … -/
+theorem C20_float_ceil32Ok : floatNum.Ceil32Ok := floatNum_ceil32Ok
+
+/-- … so the comparison-only clauses hold of the very code the driver runs against the C++. -/
+theorem C20_float (g : List (Marker Float)) (n : Int) (hi : Idx32 g) :
+    (∀ u, normalize floatNum g n ≠ .ub u) ∧
+    (∀ out, normalize floatNum g n = .ok out → g ≠ [] →
+      (∃ m, out.head? = some m ∧ m.index = -4) ∧
+      out.length = (trim floatNum g n).length ∧
+      (∀ i, 0 < i → i + 1 < out.length → out[i]? = (trim floatNum g n)[i]?) ∧ Idx32 out) ∧
+    (g ≠ [] → ((trim floatNum g n).length < 2 ∨
+        ∃ m1, (trim floatNum g n)[1]? = some m1 ∧ m1.index ≤ -4) →
+      normalize floatNum g n = .throw .invalid_argument) :=
+  ⟨normalize_defined floatNum floatNum_ceil32Ok g n hi,
+   fun _ h hne => ⟨gen_first_index floatNum_ceil32Ok hi h hne,
+     (gen_interior_unchanged floatNum_ceil32Ok hi h hne).1,
+     (gen_interior_unchanged floatNum_ceil32Ok hi h hne).2,
+     gen_out_idx32 floatNum_ceil32Ok hi h hne⟩,
+   fun hne hc => gen_reject_of hne hc⟩
+
+/-! ## B. exact rationals: the property, about the input grid -/
 
 /-- Strictly increasing in beat index and in sample offset (positive tempo everywhere). -/
 def Sorted (g : List (Marker ℚ)) : Prop :=
@@ -32,117 +115,183 @@ def Sorted (g : List (Marker ℚ)) : Prop :=
 /-- Samples per beat of the segment between two markers. -/
 def tempo (a b : Marker ℚ) : ℚ := (b.off - a.off) / ((b.index - a.index : Int) : ℚ)
 
-/-- The trimmed grid is a contiguous part of the input. -/
-theorem C20_trim_infix (g : List (Marker ℚ)) (n : Int) : trim ratNum g n <:+: g :=
-  trim_infix g n
+/-- Number of beats from the last marker `l` to the first beat at or beyond the end `n`, along the
+last segment `p`–`l`. -/
+def beatsToEnd (p l : Marker ℚ) (n : Int) : Int := ⌈((n : ℚ) - l.off) / tempo p l⌉
 
-/-- Trimming keeps every marker strictly inside the track. -/
-theorem C20_trim_keeps_interior (g : List (Marker ℚ)) (n : Int) (hs : Sorted g)
-    (m : Marker ℚ) (hm : m ∈ g) (h0 : 0 < m.off) (h1 : m.off < n) : m ∈ trim ratNum g n :=
-  trim_keeps hs hm h0 h1
+/-- The exact-rational instance satisfies the order laws and the `ceil32` contract. -/
+theorem C20_rat_laws : OrdLaws ratNum ∧ ratNum.Ceil32Ok := ⟨qNum_ordLaws, ratNum_ceil32Ok⟩
 
-/-- A `throw` has one of exactly three causes: fewer than two usable markers, beat −4 not before
-the second marker, or (only when exactly two markers are left) the track ends at or before beat −4
-of that single segment.  No overflow caveat in this direction. -/
-theorem C20_throw_only_if (g : List (Marker ℚ)) (n : Int) (hs : Sorted g) (hne : g ≠ [])
-    (h : normalize ratNum g n = .throw .invalid_argument) :
-    ((trim ratNum g n).length < 2 ∨ (∃ m1, (trim ratNum g n)[1]? = some m1 ∧ m1.index ≤ -4) ∨
-     (∃ m0 m1, trim ratNum g n = [m0, m1] ∧
-        (n : ℚ) ≤ m0.off + (((-4 - m0.index : Int)) : ℚ) * tempo m0 m1)) :=
-  c20_throw_only_if hs hne h
+/-- What trimming keeps, over ℚ: the Spec's window. -/
+theorem C20_window_spec (g : List (Marker ℚ)) (n : Int) (hs : Sorted g) (hn : 0 < n) :
+    trim ratNum g n = window ratNum g n :=
+  trim_eq_window_q hs hn
 
-/-- The first two causes always `throw` (no sortedness needed, never masked by an overflow). -/
-theorem C20_reject_of (g : List (Marker ℚ)) (n : Int) (hne : g ≠ [])
-    (hc : (trim ratNum g n).length < 2 ∨
-      ∃ m1, (trim ratNum g n)[1]? = some m1 ∧ m1.index ≤ -4) :
+/-- **"Overlaps the track"**: the window has two or more markers exactly when the grid has at
+least two markers, one of them after sample 0 and one of them before the end. -/
+theorem C20_overlap_iff (g : List (Marker ℚ)) (n : Int) (hs : Sorted g) (hn : 0 < n) :
+    2 ≤ (window ratNum g n).length ↔
+      2 ≤ g.length ∧ (∃ m ∈ g, 0 < m.off) ∧ (∃ m ∈ g, m.off < (n : ℚ)) := by
+  rw [← trim_eq_window_q hs hn]; exact trim_length_ge_two_iff hs hn
+
+/-- A single marker, a grid wholly at or before sample 0, or wholly at or beyond the end, is
+rejected with `invalid_argument` (no sortedness, no index bound needed). -/
+theorem C20_reject_out_of_range (g : List (Marker ℚ)) (n : Int) (hne : g ≠ [])
+    (h : g.length < 2 ∨ (∀ m ∈ g, m.off ≤ 0) ∨ (∀ m ∈ g, (n : ℚ) ≤ m.off)) :
     normalize ratNum g n = .throw .invalid_argument :=
-  c20_reject_of hne hc
+  gen_reject_of hne (Or.inl (trim_short_of h))
 
-/-- Rejection is exactly: fewer than two usable markers, or beat −4 not before the second marker,
-or a two-marker grid whose track ends at or before beat −4.
-(`hnub`: the third cause is only reached after the `int` arithmetic of both moves, which can
-overflow first — then the outcome is `ub`, not `throw`.) -/
-theorem C20_reject_iff (g : List (Marker ℚ)) (n : Int) (hs : Sorted g) (hne : g ≠ [])
-    (hnub : ∀ u, normalize ratNum g n ≠ .ub u) :
+/-- **The rejection set, exactly**, in terms of the window of the input grid:
+fewer than two markers overlap the track; or beat −4 would not lie before the second window
+marker; or (two window markers) the track ends at or before beat −4 of their segment; or the last
+beat index cannot be represented (`beatsToEnd` not an `int32_t`, or the new index above
+`INT32_MAX`). -/
+theorem C20_reject_iff (g : List (Marker ℚ)) (n : Int) (hs : Sorted g) (hi : Idx32 g) (hn : 0 < n)
+    (hne : g ≠ []) :
     normalize ratNum g n = .throw .invalid_argument ↔
-      ((trim ratNum g n).length < 2 ∨ (∃ m1, (trim ratNum g n)[1]? = some m1 ∧ m1.index ≤ -4) ∨
-       (∃ m0 m1, trim ratNum g n = [m0, m1] ∧
-          (n : ℚ) ≤ m0.off + (((-4 - m0.index : Int)) : ℚ) * tempo m0 m1)) :=
-  c20_reject_iff hs hne hnub
+      ((window ratNum g n).length < 2 ∨
+       (∃ m1, (window ratNum g n)[1]? = some m1 ∧ m1.index ≤ -4) ∨
+       (∃ m0 m1, window ratNum g n = [m0, m1] ∧
+          (n : ℚ) ≤ m0.off + (((-4 - m0.index : Int)) : ℚ) * tempo m0 m1) ∨
+       (∃ p l, (window ratNum g n)[(window ratNum g n).length - 2]? = some p ∧
+          (window ratNum g n)[(window ratNum g n).length - 1]? = some l ∧
+          2 ≤ (window ratNum g n).length ∧
+          (¬ In32 (beatsToEnd p l n) ∨ 2147483647 < l.index + beatsToEnd p l n))) := by
+  rw [← trim_eq_window_q hs hn]; exact c20_throw_iff hs hi hne
+
+/-- **Acceptance**: a strictly increasing grid that overlaps the track is normalised, provided
+beat −4 lies before the second window marker, the track extends beyond beat −4, and the last beat
+index is representable. -/
+theorem C20_accept_of_overlap (g : List (Marker ℚ)) (n : Int) (hs : Sorted g) (hi : Idx32 g)
+    (hn : 0 < n) (h2 : 2 ≤ g.length) (hpos : ∃ m ∈ g, 0 < m.off) (hend : ∃ m ∈ g, m.off < (n : ℚ))
+    (h4 : ∀ m1, (window ratNum g n)[1]? = some m1 → -4 < m1.index)
+    (hb : ∀ m0 m1, window ratNum g n = [m0, m1] →
+      m0.off + (((-4 - m0.index : Int)) : ℚ) * tempo m0 m1 < (n : ℚ))
+    (hrep : ∀ p l, (window ratNum g n)[(window ratNum g n).length - 2]? = some p →
+      (window ratNum g n)[(window ratNum g n).length - 1]? = some l →
+      In32 (beatsToEnd p l n) ∧ l.index + beatsToEnd p l n ≤ 2147483647) :
+    ∃ out, normalize ratNum g n = .ok out := by
+  have hne : g ≠ [] := by rintro rfl; simp at h2
+  apply c20_ok_of_not_throw hi
+  show normalize ratNum g n ≠ _
+  rw [Ne, C20_reject_iff g n hs hi hn hne]
+  rintro (hlen | ⟨m1, hm1, hidx⟩ | ⟨m0, m1, hw, hle⟩ | ⟨p, l, hp, hl, -, hun⟩)
+  · have := (C20_overlap_iff g n hs hn).mpr ⟨h2, hpos, hend⟩
+    omega
+  · have := h4 m1 hm1; omega
+  · have := hb m0 m1 hw; linarith
+  · obtain ⟨h1, h3⟩ := hrep p l hp hl
+    rcases hun with hu | hu
+    · exact hu h1
+    · omega
 
 /-- The empty grid is returned unchanged. -/
 theorem C20_empty (n : Int) : normalize ratNum ([] : List (Marker ℚ)) n = .ok [] := rfl
 
-/-- Shape of a successful result: same length as the trimmed grid, interior markers untouched. -/
-theorem C20_interior_unchanged (g out : List (Marker ℚ)) (n : Int)
-    (h : normalize ratNum g n = .ok out) (hne : g ≠ []) :
-    out.length = (trim ratNum g n).length ∧
-    ∀ i, 0 < i → i + 1 < out.length → out[i]? = (trim ratNum g n)[i]? :=
-  c20_interior_unchanged h hne
-
 /-- The first marker has beat index −4. -/
-theorem C20_first_index (g out : List (Marker ℚ)) (n : Int)
+theorem C20_first_index (g out : List (Marker ℚ)) (n : Int) (hi : Idx32 g)
     (h : normalize ratNum g n = .ok out) (hne : g ≠ []) :
     ∃ m, out.head? = some m ∧ m.index = -4 :=
-  c20_first_index h hne
+  gen_first_index ratNum_ceil32Ok hi h hne
 
-/-- The tempo of the first and of the last segment is kept. -/
-theorem C20_tempo_kept (g out : List (Marker ℚ)) (n : Int) (hs : Sorted g)
-    (h : normalize ratNum g n = .ok out) (hne : g ≠ []) :
-    let t := trim ratNum g n
+/-- **Interior markers are kept**: every marker of the input strictly inside the track that is
+neither the first nor the last marker of the grid appears in the result unchanged, strictly
+between its first and last marker. -/
+theorem C20_interior_kept (g out : List (Marker ℚ)) (n : Int) (hs : Sorted g) (hi : Idx32 g)
+    (h : normalize ratNum g n = .ok out) (hne : g ≠ []) (m : Marker ℚ) (hm : m ∈ g)
+    (h0 : 0 < m.off) (h1 : m.off < (n : ℚ))
+    (hbefore : ∃ x ∈ g, x.off < m.off) (hafter : ∃ y ∈ g, m.off < y.off) :
+    m ∈ out.dropLast.tail :=
+  c20_interior_kept hs hi h hne hm h0 h1 hbefore hafter
+
+/-- … and nothing else is: every marker strictly between the first and the last marker of the
+result is a marker of the input, strictly inside the track. -/
+theorem C20_interior_inside (g out : List (Marker ℚ)) (n : Int) (hs : Sorted g) (hi : Idx32 g)
+    (h : normalize ratNum g n = .ok out) (hne : g ≠ []) (m : Marker ℚ)
+    (hm : m ∈ out.dropLast.tail) : m ∈ g ∧ 0 < m.off ∧ m.off < (n : ℚ) :=
+  c20_interior_inside hs hi h hne hm
+
+/-- Position by position: the result has the length of the window and agrees with it everywhere
+but at the first and the last position. -/
+theorem C20_interior_unchanged (g out : List (Marker ℚ)) (n : Int) (hs : Sorted g) (hi : Idx32 g)
+    (hn : 0 < n) (h : normalize ratNum g n = .ok out) (hne : g ≠ []) :
+    out.length = (window ratNum g n).length ∧
+    ∀ i, 0 < i → i + 1 < out.length → out[i]? = (window ratNum g n)[i]? := by
+  rw [← trim_eq_window_q hs hn]; exact gen_interior_unchanged ratNum_ceil32Ok hi h hne
+
+/-- The tempo of the first and of the last segment of the window is kept. -/
+theorem C20_tempo_kept (g out : List (Marker ℚ)) (n : Int) (hs : Sorted g) (hi : Idx32 g)
+    (hn : 0 < n) (h : normalize ratNum g n = .ok out) (hne : g ≠ []) :
+    let t := window ratNum g n
     (∀ a b a' b', t[0]? = some a → t[1]? = some b → out[0]? = some a' → out[1]? = some b' →
         tempo a' b' = tempo a b) ∧
     (∀ a b a' b', t[t.length - 2]? = some a → t[t.length - 1]? = some b →
-        out[out.length - 2]? = some a' → out[out.length - 1]? = some b' → tempo a' b' = tempo a b) :=
-  c20_tempo_kept hs h hne
+        out[out.length - 2]? = some a' → out[out.length - 1]? = some b' → tempo a' b' = tempo a b) := by
+  rw [← trim_eq_window_q hs hn]; exact c20_tempo_kept hs hi h hne
 
 /-- The last marker lies at or beyond the end of the track and less than one beat past it. -/
-theorem C20_bracket (g out : List (Marker ℚ)) (n : Int) (hs : Sorted g)
+theorem C20_bracket (g out : List (Marker ℚ)) (n : Int) (hs : Sorted g) (hi : Idx32 g)
     (h : normalize ratNum g n = .ok out) (hne : g ≠ []) :
     ∃ p l, out[out.length - 2]? = some p ∧ out[out.length - 1]? = some l ∧
       (n : ℚ) ≤ l.off ∧ l.off < (n : ℚ) + tempo p l :=
-  c20_bracket hs h hne
+  c20_bracket hs hi h hne
 
-/-- The result is again strictly increasing. -/
-theorem C20_sorted (g out : List (Marker ℚ)) (n : Int) (hs : Sorted g) (hn : 0 < n)
-    (h : normalize ratNum g n = .ok out) (hne : g ≠ []) : Sorted out := by
-  have _ := hn  -- not needed for this conclusion; kept in the statement
-  exact c20_sorted hs h hne
+/-- The result is again strictly increasing, with `int` indices. -/
+theorem C20_sorted (g out : List (Marker ℚ)) (n : Int) (hs : Sorted g) (hi : Idx32 g)
+    (h : normalize ratNum g n = .ok out) (hne : g ≠ []) : Sorted out ∧ Idx32 out :=
+  ⟨c20_sorted hs hi h hne, gen_out_idx32 ratNum_ceil32Ok hi h hne⟩
 
-/-- Idempotence (exact over ℚ; "up to rounding" over floats is the tie's job).
-`hfit`: re-normalising computes `index + 4` and `last.index − prev.index` in `int`; without room
-for that the second run is `ub signed_overflow` (e.g. `[(-4,0),(-3,1)]`, `n = 2^31`). -/
-theorem C20_idempotent (g out : List (Marker ℚ)) (n : Int) (hs : Sorted g) (hn : 0 < n)
-    (h : normalize ratNum g n = .ok out) (hne : g ≠ [])
-    (hfit : ∀ m ∈ out, m.index ≤ 2147483643) :
+/-- **Idempotence**, exact over ℚ and without any overflow caveat ("up to rounding" over floats
+is what the Float-vs-ℚ stream of the tie measures). -/
+theorem C20_idempotent (g out : List (Marker ℚ)) (n : Int) (hs : Sorted g) (hi : Idx32 g)
+    (hn : 0 < n) (h : normalize ratNum g n = .ok out) (hne : g ≠ []) :
     normalize ratNum out n = .ok out :=
-  c20_idempotent hs hn h hne hfit
+  c20_idempotent hs hi hn h hne
 
-/-- Idempotence without the `hfit` caveat: the second run either returns the grid unchanged or
-hits a signed `int` overflow — never a `throw`, never another `ub`, never a different grid. -/
-theorem C20_idempotent_or_overflow (g out : List (Marker ℚ)) (n : Int) (hs : Sorted g) (hn : 0 < n)
-    (h : normalize ratNum g n = .ok out) (hne : g ≠ []) :
-    normalize ratNum out n = .ok out ∨ normalize ratNum out n = .ub .signed_overflow :=
-  c20_idempotent_or_overflow hs hn h hne
+/-! ## C. witnesses -/
+
+/-- `Idx32` in `C20_defined` is needed: beat indices that are not `int` values (impossible for the
+C++ field, possible for the Model's `Int`) can overflow the 64-bit index arithmetic. -/
+theorem C20_defined_counterexample :
+    normalize ratNum [⟨-9223372036854775808, 0⟩, ⟨1, 1⟩] 10 = .ub .signed_overflow := by
+  decide +kernel
+
+/-- Overlapping the track is not sufficient for acceptance: beat −4 must lie before the second
+window marker (otherwise moving the first marker there would un-sort the grid). -/
+theorem C20_accept_of_overlap_counterexample :
+    2 ≤ (window ratNum [⟨-6, -100⟩, ⟨-4, 100⟩, ⟨0, 500⟩] 1000).length ∧
+    normalize ratNum [⟨-6, -100⟩, ⟨-4, 100⟩, ⟨0, 500⟩] 1000 = .throw .invalid_argument := by
+  decide +kernel
+
+/-- The former undefined-behaviour witnesses (signed `int` overflow in `index[1] − index[0]`,
+`4 + index[0]`, `index += adjustment`; out-of-range `double → int32_t` conversion), replayed on the
+real library before the `fix:`; now a grid or `invalid_argument`. -/
+theorem C20_former_ub_witnesses :
+    normalize ratNum [⟨-4, 0⟩, ⟨2147483644, 2147483648⟩] 2147483648 =
+      .ok [⟨-4, 0⟩, ⟨2147483644, 2147483648⟩] ∧
+    normalize ratNum [⟨2147483646, 0⟩, ⟨2147483647, 400⟩] 1000 = .throw .invalid_argument ∧
+    normalize ratNum [⟨-2147483648, 0⟩, ⟨2147483647, 400⟩] 1000 = .throw .invalid_argument ∧
+    normalize ratNum [⟨0, 0⟩, ⟨1, 1 / 1000000000⟩] 1000000000000000 =
+      .throw .invalid_argument := by
+  decide +kernel
 
 /-! ### non-vacuity -/
 example : normalize ratNum [⟨0, 0⟩, ⟨4, 400⟩, ⟨8, 800⟩] 1000 =
-    .ok [⟨-4, -400⟩, ⟨4, 400⟩, ⟨10, 1000⟩] := by
-  norm_num [normalize, trim, trimEnd, trimStart, fixFirst, fixLast, ratNum, chk32,
-    List.findIdx?_cons, List.findIdx_cons]
+    .ok [⟨-4, -400⟩, ⟨4, 400⟩, ⟨10, 1000⟩] := by decide +kernel
+
+/-- The window of a grid with markers before sample 0 and beyond the end. -/
+example : window ratNum [⟨-8, -900⟩, ⟨-4, -500⟩, ⟨0, -100⟩, ⟨4, 300⟩, ⟨8, 700⟩, ⟨12, 1100⟩,
+      ⟨16, 1500⟩] 1000 = [⟨0, -100⟩, ⟨4, 300⟩, ⟨8, 700⟩, ⟨12, 1100⟩] := by decide +kernel
+
+/-- The hypotheses of `C20_accept_of_overlap` / `C20_idempotent` are met by a concrete grid. -/
+example : Sorted [⟨0, 0⟩, ⟨4, 400⟩, ⟨8, 800⟩] ∧ Idx32 ([⟨0, 0⟩, ⟨4, 400⟩, ⟨8, 800⟩] : List (Marker ℚ)) := by
+  constructor
+  · unfold Sorted; simp; norm_num
+  · intro m hm; simp at hm; rcases hm with rfl | rfl | rfl <;> (unfold In32; norm_num)
 
 /-- The third cause of rejection: two markers left, track ends before beat −4 of the segment
 (beat −4 is at sample 999). -/
 example : normalize ratNum [⟨-104, -1⟩, ⟨-3, 1009⟩] 5 = .throw .invalid_argument := by
-  norm_num [normalize, trim, trimEnd, trimStart, fixFirst, fixLast, ratNum, chk32,
-    List.findIdx?_cons, List.findIdx_cons]
-
-/-- `hfit` of `C20_idempotent` is needed: a normalised grid whose second run overflows. -/
-example : normalize ratNum [⟨-4, 0⟩, ⟨-3, 1⟩] 2147483648 =
-      .ok [⟨-4, 0⟩, ⟨2147483644, 2147483648⟩] ∧
-    normalize ratNum [⟨-4, 0⟩, ⟨2147483644, 2147483648⟩] 2147483648 = .ub .signed_overflow := by
-  constructor <;>
-  norm_num [normalize, trim, trimEnd, trimStart, fixFirst, fixLast, ratNum, chk32,
-    List.findIdx?_cons, List.findIdx_cons]
+  decide +kernel
 
 end EngineModel.Properties.C20
